@@ -12,13 +12,23 @@ package server
 //   newSamplingSender(gRPCChunkSender(stream))  ...events...  sampler.Flush()
 // over a fake grpc stream that serialises every message at Send (the chunker
 // reuses its buffer, exactly what a real transport protects the client from).
+//
+// A second kind of case ("flush" cases) runs the whole handler end to end:
+//   Server.StreamSearch -> search.NewDirectorySearcher over real shards on disk
+//   (flush-collect layer, SearchOptions.FlushWallTime > 0) -> sampler -> chunker
+//   -> a fake stream played by a slow client whose Send blocks under the
+//   harness's control.
 
 import (
 	"context"
 	"encoding/json"
 	"fmt"
+	"os"
+	"path/filepath"
 	"reflect"
 	"sort"
+	"strings"
+	"sync"
 	"testing"
 	"time"
 
@@ -29,6 +39,8 @@ import (
 	"github.com/sourcegraph/zoekt"
 	webserverv1 "github.com/sourcegraph/zoekt/grpc/protos/zoekt/webserver/v1"
 	"github.com/sourcegraph/zoekt/internal/verifkit/kit"
+	"github.com/sourcegraph/zoekt/query"
+	"github.com/sourcegraph/zoekt/search"
 )
 
 // c25Budget mirrors grpc/chunk.maxMessageSize (unexported): the chunker sends
@@ -60,7 +72,10 @@ type c25Event struct {
 }
 
 type c25Case struct {
-	Events []c25Event
+	Events []c25Event `json:",omitempty"`
+	// Flush != nil: an end-to-end case through Server.StreamSearch over real
+	// shards with a flush timer and a slow client (Events is unused).
+	Flush *c25Flush `json:",omitempty"`
 }
 
 // ---------------------------------------------------------------- fake stream
@@ -304,6 +319,552 @@ func c25FirstDiff(a, b []string) string {
 	return "none"
 }
 
+// ---------------------------------------------------------------- flush cases (end to end)
+
+// c25Flush describes one end-to-end case: a directory of simple shards, a
+// query that matches every "needle" document, a flush timer placed at a
+// fraction of the measured duration of that search, and a slow client.
+type c25Flush struct {
+	Shards int // simple shards (one repository each)
+	Docs   int // shard i holds 1 + i%Docs matching documents (plus one that does not match)
+	DocKB  int // approximate size of a document
+	Whole  bool
+	Chunks bool // SearchOptions.ChunkMatches
+	Regex  bool // regexp instead of substring query
+	// TimerPermille places SearchOptions.FlushWallTime at that many thousandths
+	// of the wall time the same search just took without a flush window
+	// (> 1000: the search normally finishes first and only the final flush
+	// runs). 0 = no flush window at all (FlushWallTime 0, pass-through).
+	TimerPermille int
+	// Stalls: the client does not take the k-th file-carrying message for up
+	// to HoldMS milliseconds (gRPC flow control blocks Send). The stall ends
+	// early when the handler returns or another Send shows up meanwhile - both
+	// of which are violations.
+	Stalls []c25Stall `json:",omitempty"`
+}
+
+type c25Stall struct{ Msg, HoldMS int }
+
+// c25FlushDeterministic: the counters that are a function of shards and
+// query only (the others are wall-clock times).
+var c25FlushTimed = map[string]bool{"Wait": true, "MatchTreeConstruction": true, "MatchTreeSearch": true}
+
+type c25FMsg struct {
+	files    []string // repo/name
+	total    int      // sum of proto.Size of the files
+	stats    zoekt.Stats
+	hasStats bool
+	stalled  bool
+}
+
+// c25SlowStream is the client side of one StreamSearch call. Messages are
+// recorded when Send completes (that is when the client has them).
+type c25SlowStream struct {
+	grpc.ServerStream
+	mu        sync.Mutex
+	stalls    map[int]time.Duration
+	entered   int
+	fileMsgs  int
+	inflight  int
+	done      bool
+	returned  chan struct{}
+	overlap   chan struct{}
+	overlapOn bool
+	msgs      []c25FMsg
+	fail      error
+}
+
+func newC25SlowStream(stalls []c25Stall) *c25SlowStream {
+	s := &c25SlowStream{stalls: map[int]time.Duration{}, returned: make(chan struct{}), overlap: make(chan struct{})}
+	for _, st := range stalls {
+		s.stalls[st.Msg] = time.Duration(st.HoldMS) * time.Millisecond
+	}
+	return s
+}
+
+func (s *c25SlowStream) Context() context.Context { return context.Background() }
+
+func (s *c25SlowStream) failf(kind, format string, args ...any) {
+	if s.fail == nil {
+		s.fail = kit.Fail(kind, format, args...)
+	}
+}
+
+func (s *c25SlowStream) Send(m *webserverv1.StreamSearchResponse) error {
+	chunk := m.GetResponseChunk()
+	s.mu.Lock()
+	idx := s.entered
+	s.entered++
+	s.inflight++
+	if s.done {
+		s.failf("sent-after-return", "message %d (%d files) was handed to the stream after the StreamSearch handler had returned", idx, len(chunk.GetFiles()))
+	}
+	if s.inflight > 1 {
+		s.failf("overtaking", "message %d (%d files) was handed to the stream while an earlier message was still being delivered to the slow client: results are sent concurrently and overtake each other", idx, len(chunk.GetFiles()))
+		if !s.overlapOn {
+			s.overlapOn = true
+			close(s.overlap)
+		}
+	}
+	fileIdx := -1
+	if len(chunk.GetFiles()) > 0 {
+		fileIdx = s.fileMsgs
+		s.fileMsgs++
+	}
+	hold := s.stalls[fileIdx]
+	s.mu.Unlock()
+
+	b, err := proto.Marshal(m)
+	if err != nil {
+		s.mu.Lock()
+		s.failf("send-error", "message %d is not serialisable: %v", idx, err)
+		s.inflight--
+		s.mu.Unlock()
+		return err
+	}
+	_ = b
+	msg := c25FMsg{hasStats: chunk.GetStats() != nil, stats: zoekt.StatsFromProto(chunk.GetStats()), stalled: fileIdx >= 0 && hold > 0}
+	for _, f := range chunk.GetFiles() {
+		msg.files = append(msg.files, f.GetRepository()+"/"+string(f.GetFileName()))
+		msg.total += proto.Size(f)
+	}
+
+	if fileIdx >= 0 && hold > 0 {
+		tm := time.NewTimer(hold)
+		select {
+		case <-s.overlap:
+		case <-s.returned:
+		case <-tm.C:
+		}
+		tm.Stop()
+	}
+
+	s.mu.Lock()
+	s.msgs = append(s.msgs, msg)
+	s.inflight--
+	s.mu.Unlock()
+	return nil
+}
+
+// handlerReturned is called right after Server.StreamSearch returned: a real
+// transport closes the stream at that point.
+func (s *c25SlowStream) handlerReturned() {
+	s.mu.Lock()
+	s.done = true
+	if s.inflight > 0 {
+		s.failf("returned-early", "the StreamSearch handler returned while %d message(s) were still being delivered to the slow client (%d delivered so far): the stream is closed before everything collected was sent", s.inflight, len(s.msgs))
+	}
+	close(s.returned)
+	s.mu.Unlock()
+	// let stragglers (only on a broken tree) finish so that they cannot touch the next case
+	for i := 0; i < 2000; i++ {
+		s.mu.Lock()
+		n := s.inflight
+		s.mu.Unlock()
+		if n == 0 {
+			return
+		}
+		time.Sleep(time.Millisecond)
+	}
+}
+
+type c25Corpus struct {
+	dir      string
+	searcher zoekt.Streamer
+	server   *Server
+	want     map[string]bool         // repo/name of every matching document
+	perRepo  map[string]int          // matching documents per repository
+	refs     map[string]*c25Observed // reference observation by option key
+}
+
+type c25Observed struct {
+	events [][]string // files of each file-carrying event, in delivery order
+	marked []int      // indices (into events) of events whose first message carried a FlushReason; -1 entries never occur
+	reason zoekt.FlushReason
+	// stats-only marked events are counted too
+	markedEvents int
+	stats        map[string]int64
+	msgs         int
+	multiChunk   bool // the marked event was split over several messages
+	stalledAgg   bool // a stall hit a message of the marked event
+}
+
+var (
+	c25Corpora  = map[string]*c25Corpus{}
+	c25Cleanups []func()
+)
+
+func c25CloseAll() {
+	for _, f := range c25Cleanups {
+		f()
+	}
+	c25Cleanups = nil
+	c25Corpora = map[string]*c25Corpus{}
+}
+
+var c25Exts = []string{".go", ".txt", ".md", ".c", ".py"}
+
+// c25Shard is one built simple shard; layouts with the same document
+// parameters share the builds (a ShardBuilder costs ~60 ms, much more on a
+// busy machine).
+type c25Shard struct {
+	data  []byte
+	repo  string
+	files []string // repo/name of the matching documents
+}
+
+var c25ShardPool = map[string]*c25Shard{}
+
+// c25MakeShard: shard i holds 1 + i%docs matching documents and one that does
+// not match. Documents differ in size (1/4 .. 7/4 of kb KiB) and in match
+// density, so that shards take different times - their results arrive spread
+// over the search - and files get different scores.
+func c25MakeShard(docs, kb, i int) (*c25Shard, error) {
+	r := kit.Repo{Name: fmt.Sprintf("repo%02d", i), ID: uint32(i + 1), Branches: []kit.Branch{{Name: "HEAD", Version: "v1"}}}
+	sh := &c25Shard{repo: r.Name}
+	n := 1 + i%docs
+	for j := 0; j <= n; j++ {
+		match := j < n
+		var sb strings.Builder
+		lines := kb * 1024 / 48 * (1 + (i*5+j)%7) / 4
+		if lines < 3 {
+			lines = 3
+		}
+		every := 3 + (i+2*j)%5
+		for l := 0; l < lines; l++ {
+			if match && l%every == 1 {
+				fmt.Fprintf(&sb, "line %05d of doc %d.%d holds the needle%d here ....\n", l, i, j, l%3)
+			} else {
+				fmt.Fprintf(&sb, "line %05d of doc %d.%d is plain haystack filling\n", l, i, j)
+			}
+		}
+		name := fmt.Sprintf("dir%d/doc%d%s", j%2, j, c25Exts[(i+j)%len(c25Exts)])
+		r.Docs = append(r.Docs, kit.Doc{Name: name, Content: kit.Text(sb.String()), Branches: []string{"HEAD"}})
+		if match {
+			sh.files = append(sh.files, r.Name+"/"+name)
+		}
+	}
+	data, err := kit.BuildSimple(&r)
+	sh.data = data
+	return sh, err
+}
+
+func c25GetCorpus(f *c25Flush) (*c25Corpus, error) {
+	key := fmt.Sprintf("%d/%d/%d", f.Shards, f.Docs, f.DocKB)
+	if c, ok := c25Corpora[key]; ok {
+		return c, nil
+	}
+	if f.Shards < 1 || f.Docs < 1 || f.DocKB < 1 {
+		return nil, fmt.Errorf("bad layout %s", key)
+	}
+	shards := make([]*c25Shard, f.Shards)
+	errs := make([]error, f.Shards)
+	var wg sync.WaitGroup
+	for i := range shards {
+		if shards[i] = c25ShardPool[fmt.Sprintf("%d/%d/%d", f.Docs, f.DocKB, i)]; shards[i] == nil {
+			wg.Add(1)
+			go func(i int) {
+				defer wg.Done()
+				shards[i], errs[i] = c25MakeShard(f.Docs, f.DocKB, i)
+			}(i)
+		}
+	}
+	wg.Wait()
+	for _, err := range errs {
+		if err != nil {
+			return nil, err
+		}
+	}
+	dir, err := os.MkdirTemp("", "c25-flush-")
+	if err != nil {
+		return nil, err
+	}
+	c := &c25Corpus{dir: dir, want: map[string]bool{}, perRepo: map[string]int{}, refs: map[string]*c25Observed{}}
+	for i, sh := range shards {
+		c25ShardPool[fmt.Sprintf("%d/%d/%d", f.Docs, f.DocKB, i)] = sh
+		for _, name := range sh.files {
+			c.want[name] = true
+		}
+		c.perRepo[sh.repo] = len(sh.files)
+		if err := os.WriteFile(filepath.Join(dir, fmt.Sprintf("%s_v16.00000.zoekt", sh.repo)), sh.data, 0o644); err != nil {
+			os.RemoveAll(dir)
+			return nil, err
+		}
+	}
+	tds := time.Now()
+	ss, err := search.NewDirectorySearcher(dir)
+	c25DbgDS += time.Since(tds)
+	if err != nil {
+		os.RemoveAll(dir)
+		return nil, err
+	}
+	c.searcher = ss
+	c.server = NewServer(ss)
+	c25Cleanups = append(c25Cleanups, func() { ss.Close(); os.RemoveAll(dir) })
+	c25Corpora[key] = c
+	return c, nil
+}
+
+func (f *c25Flush) query() (query.Q, error) {
+	if f.Regex {
+		return query.Parse("nee+dle[0-9]")
+	}
+	return query.Parse("needle")
+}
+
+func (f *c25Flush) opts(flush time.Duration) *zoekt.SearchOptions {
+	return &zoekt.SearchOptions{Whole: f.Whole, ChunkMatches: f.Chunks, FlushWallTime: flush}
+}
+
+// c25Serve runs the real handler against a slow client and reports what the
+// client received.
+func c25Serve(c *c25Corpus, q query.Q, opts *zoekt.SearchOptions, stalls []c25Stall) (*c25Observed, error) {
+	stream := newC25SlowStream(stalls)
+	req := &webserverv1.StreamSearchRequest{Request: &webserverv1.SearchRequest{Query: query.QToProto(q), Opts: opts.ToProto()}}
+	errc := make(chan error, 1)
+	go func() {
+		err := kit.Guard(func() error { return c.server.StreamSearch(req, stream) })
+		stream.handlerReturned()
+		errc <- err
+	}()
+	select {
+	case err := <-errc:
+		if err != nil {
+			return nil, kit.Fail("search-error", "StreamSearch: %v", err)
+		}
+	case <-time.After(120 * time.Second):
+		return nil, kit.Fail("hang", "StreamSearch did not return within 120 s")
+	}
+	stream.mu.Lock()
+	defer stream.mu.Unlock()
+	if stream.fail != nil {
+		return nil, stream.fail
+	}
+	o := &c25Observed{stats: map[string]int64{}, msgs: len(stream.msgs)}
+	cur := -1           // index of the open file-carrying event
+	curMarked := false  // the open event (file-carrying or not) is a marked one
+	filesBefore := 0    // file-carrying messages seen so far
+	for i, m := range stream.msgs {
+		if len(m.files) > 1 && m.total >= c25Budget {
+			return nil, kit.Fail("budget", "message %d carries %d files with %d bytes in total (budget %d); only a single oversized file may exceed it", i, len(m.files), m.total, c25Budget)
+		}
+		c25AddStats(o.stats, m.stats, 1)
+		if m.hasStats { // first message of an event
+			cur = -1
+			curMarked = m.stats.FlushReason != 0
+			if curMarked {
+				o.markedEvents++
+				o.reason = m.stats.FlushReason
+				if filesBefore > 0 {
+					return nil, kit.Fail("file-order", "message %d is the flush of the collected results (FlushReason %s) but %d file-carrying message(s) were delivered before it: results produced after the flush point overtook the collected ones", i, m.stats.FlushReason, filesBefore)
+				}
+			}
+		}
+		if len(m.files) == 0 {
+			continue
+		}
+		filesBefore++
+		if cur < 0 {
+			o.events = append(o.events, nil)
+			cur = len(o.events) - 1
+			if curMarked {
+				o.marked = append(o.marked, cur)
+			}
+		} else if curMarked {
+			o.multiChunk = true
+		}
+		if curMarked && m.stalled {
+			o.stalledAgg = true
+		}
+		o.events[cur] = append(o.events[cur], m.files...)
+	}
+	return o, nil
+}
+
+var c25DbgBuild, c25DbgRun, c25DbgDS time.Duration
+
+type c25FlushFacts struct {
+	timerMid, timerEnd, finalOnly, timerEarly, passThrough bool
+	stalledAgg, multiChunk                                bool
+	files, msgs                                           int
+}
+
+func runC25Flush(f *c25Flush) (facts c25FlushFacts, err error) {
+	tb := time.Now()
+	c, err := c25GetCorpus(f)
+	if err != nil {
+		return facts, fmt.Errorf("building the shards: %v", err)
+	}
+	c25DbgBuild += time.Since(tb)
+	defer func(t time.Time) { c25DbgRun += time.Since(t) }(time.Now())
+	q, err := f.query()
+	if err != nil {
+		return facts, err
+	}
+	okey := fmt.Sprintf("%v/%v/%v", f.Whole, f.Chunks, f.Regex)
+	ref := c.refs[okey]
+	if ref == nil {
+		// what the same search delivers without a flush window and with a
+		// client that takes everything at once: one event per shard
+		ref, err = c25Serve(c, q, f.opts(0), nil)
+		if err != nil {
+			return facts, err
+		}
+		seen := map[string]bool{}
+		for _, ev := range ref.events {
+			for _, name := range ev {
+				if seen[name] || !c.want[name] {
+					return facts, kit.Fail("file-set", "no flush window: file %s delivered twice or not a matching document", name)
+				}
+				seen[name] = true
+			}
+		}
+		if len(seen) != len(c.want) || ref.markedEvents != 0 {
+			return facts, kit.Fail("file-set", "no flush window: %d files delivered, %d documents match (%d flush-marked events)", len(seen), len(c.want), ref.markedEvents)
+		}
+		c.refs[okey] = ref
+	}
+	refEvent := map[string][]string{} // repository -> its files in the order the shard produced them
+	for _, ev := range ref.events {
+		repo := ev[0][:strings.IndexByte(ev[0], '/')]
+		refEvent[repo] = append(refEvent[repo], ev...)
+	}
+
+	var flush time.Duration
+	if f.TimerPermille > 0 {
+		// steer the timer into the search: measure what this search takes right now
+		t0 := time.Now()
+		if err := c.searcher.StreamSearch(context.Background(), q, f.opts(0), zoekt.SenderFunc(func(*zoekt.SearchResult) {})); err != nil {
+			return facts, kit.Fail("search-error", "StreamSearch: %v", err)
+		}
+		flush = time.Since(t0) * time.Duration(f.TimerPermille) / 1000
+		if flush <= 0 {
+			flush = 1
+		}
+	}
+	got, err := c25Serve(c, q, f.opts(flush), f.Stalls)
+	if err != nil {
+		return facts, err
+	}
+	facts.msgs = got.msgs
+	facts.stalledAgg = got.stalledAgg
+	facts.multiChunk = got.multiChunk
+
+	// every file exactly once
+	seen := map[string]bool{}
+	for _, ev := range got.events {
+		for _, name := range ev {
+			if seen[name] {
+				return facts, kit.Fail("file-twice", "file %s delivered twice", name)
+			}
+			if !c.want[name] {
+				return facts, kit.Fail("file-set", "file %s delivered but it is not a matching document", name)
+			}
+			seen[name] = true
+		}
+	}
+	facts.files = len(seen)
+	if len(seen) != len(c.want) {
+		var missing []string
+		for name := range c.want {
+			if !seen[name] {
+				missing = append(missing, name)
+			}
+		}
+		sort.Strings(missing)
+		return facts, kit.Fail("file-count", "%d documents match, %d files delivered before the handler returned; missing e.g. %s", len(c.want), len(seen), missing[0])
+	}
+	// the flush of the collected results comes at most once (and, checked in
+	// c25Serve, before every other file); everything else is delivered shard
+	// by shard exactly as produced
+	if got.markedEvents > 1 {
+		return facts, kit.Fail("flush-twice", "%d events carry a FlushReason", got.markedEvents)
+	}
+	if flush == 0 && got.markedEvents > 0 {
+		return facts, kit.Fail("flush-unexpected", "FlushWallTime 0 but an event carries FlushReason %s", got.reason)
+	}
+	isMarked := map[int]bool{}
+	for _, i := range got.marked {
+		isMarked[i] = true
+	}
+	later := 0
+	for i, ev := range got.events {
+		if isMarked[i] {
+			// ranked union of whole shard results
+			n := map[string]int{}
+			for _, name := range ev {
+				n[name[:strings.IndexByte(name, '/')]]++
+			}
+			for repo, k := range n {
+				if k != c.perRepo[repo] {
+					return facts, kit.Fail("file-order", "the flushed aggregate holds %d of the %d files of %s; a shard's result is collected as a whole", k, c.perRepo[repo], repo)
+				}
+			}
+			continue
+		}
+		later++
+		repo := ev[0][:strings.IndexByte(ev[0], '/')]
+		if !reflect.DeepEqual(ev, refEvent[repo]) {
+			return facts, kit.Fail("file-order", "event %d delivers %v; shard %s produced %v", i, ev, repo, refEvent[repo])
+		}
+	}
+	for _, name := range c25Additive {
+		if c25FlushTimed[name] {
+			continue
+		}
+		if got.stats[name] != ref.stats[name] {
+			return facts, kit.Fail("stats", "Stats.%s: delivered messages sum to %d with FlushWallTime %v, to %d without a flush window", name, got.stats[name], flush, ref.stats[name])
+		}
+	}
+	switch {
+	case flush == 0:
+		facts.passThrough = true
+	case got.markedEvents == 0:
+		facts.timerEarly = true
+	case got.reason == zoekt.FlushReasonTimerExpired && later > 0:
+		facts.timerMid = true
+	case got.reason == zoekt.FlushReasonTimerExpired:
+		facts.timerEnd = true
+	default:
+		facts.finalOnly = true
+	}
+	return facts, nil
+}
+
+// shards, matching documents per shard (shard i has 1 + i%docs), document
+// size in KiB (x 1/4 .. 7/4). The last layout needs several messages for its
+// aggregate when whole files are requested.
+var c25Layouts = [][3]int{{2, 3, 24}, {4, 3, 24}, {8, 3, 24}, {3, 2, 200}}
+
+func c25GenFlush(rt *rapid.T) *c25Flush {
+	f := &c25Flush{}
+	// a handful of layouts (each is built once and kept open; a shard build costs ~60 ms)
+	lay := c25Pick(rt, c25Layouts, "layout")
+	f.Shards, f.Docs, f.DocKB = lay[0], lay[1], lay[2]
+	f.Whole = c25U(rt, 3, "whole") == 0
+	f.Chunks = c25U(rt, 3, "chunks") == 0
+	f.Regex = c25U(rt, 3, "regex") == 0
+	switch c25U(rt, 10, "timer") {
+	case 0:
+		f.TimerPermille = 0
+	case 1:
+		f.TimerPermille = 1000 + c25U(rt, 1000, "permille")
+	default:
+		f.TimerPermille = 50 + c25U(rt, 800, "permille")
+	}
+	hold := func() int { return c25Pick(rt, []int{2, 5, 10, 25}, "hold") }
+	switch c25U(rt, 10, "stalls") {
+	case 0:
+	case 1:
+		f.Stalls = []c25Stall{{Msg: 1, HoldMS: hold()}}
+	case 2:
+		f.Stalls = []c25Stall{{Msg: 0, HoldMS: hold()}, {Msg: 1 + c25U(rt, 3, "msg"), HoldMS: hold()}}
+	default:
+		f.Stalls = []c25Stall{{Msg: 0, HoldMS: hold()}}
+	}
+	return f
+}
+
 // ---------------------------------------------------------------- generator
 
 // c25U draws a uniform integer in [0,n) from coin flips (rapid's integer
@@ -375,6 +936,10 @@ var c25BigSizes = []int{
 
 func c25GenCase(rt *rapid.T) c25Case {
 	var c c25Case
+	if c25U(rt, 100, "flushcase") < c25FlushPercent {
+		c.Flush = c25GenFlush(rt)
+		return c
+	}
 	n := rapid.IntRange(1, 14).Draw(rt, "groups")
 	bulk := 0
 	for i := 0; i < n; i++ {
@@ -434,7 +999,45 @@ func c25GenCase(rt *rapid.T) c25Case {
 	return c
 }
 
+// c25FlushPercent of the cases are end-to-end flush cases.
+const c25FlushPercent = 10
+
+var c25DbgT0 time.Time
+
+func c25FlushCase(rec *kit.Recorder, c c25Case) error {
+	c25DbgT0 = time.Now()
+	facts, err := runC25Flush(c.Flush)
+	var labels []string
+	add := func(b bool, l string) {
+		if b {
+			labels = append(labels, l)
+		}
+	}
+	labels = append(labels, "flush-case")
+	add(facts.timerMid, "flush:timer-expired-while-shards-still-produce")
+	add(facts.timerEnd, "flush:timer-expired-after-last-result")
+	add(facts.finalOnly, "flush:final-flush-only")
+	add(facts.timerEarly, "flush:timer-expired-before-first-result")
+	add(facts.passThrough, "flush:no-window")
+	add(facts.stalledAgg, "flush:slow-client-stalls-the-aggregate")
+	add(facts.timerMid && facts.stalledAgg, "flush:result-produced-while-aggregate-is-being-delivered")
+	add(facts.multiChunk, "flush:aggregate-split-into-chunks")
+	nt := facts.timerMid && facts.stalledAgg
+	b, _ := json.Marshal(c)
+	rec.Eval(string(b), nt, labels...)
+	rec.Set("dbg_build_ms", c25DbgBuild.Milliseconds())
+	rec.Set("dbg_ds_ms", c25DbgDS.Milliseconds())
+	rec.Add(fmt.Sprintf("dbg_us_layout_%d_%d", c.Flush.Shards, c.Flush.DocKB), int(time.Since(c25DbgT0).Microseconds()))
+	rec.Add(fmt.Sprintf("dbg_n_layout_%d_%d", c.Flush.Shards, c.Flush.DocKB), 1)
+	rec.Set("dbg_run_ms", c25DbgRun.Milliseconds())
+	rec.Add("flush_files_delivered", facts.files)
+	rec.Add("flush_messages_received", facts.msgs)
+	rec.Sample(c, nt)
+	return err
+}
+
 func TestVerif_C25(t *testing.T) {
+	t.Cleanup(c25CloseAll)
 	rec := kit.Open(t, "C25",
 		"rapid-generated sequences of 1-14 event groups pushed through newSamplingSender -> gRPCChunkSender -> a fake stream that marshals and unmarshals every message at Send, then sampler.Flush(): stats-only events (all-zero, one counter, several, all counters) repeated 1-350 times, and events with 1-60 files of 1 B - 2 MiB (many sizes at 1/3, 1/2 and 1x the 1 MiB chunk budget +- a few bytes). Non-trivial: the sequence has both stats-only and file events and the stream produced >= 2 messages. Distinct by hash of the JSON case",
 		"counters are non-negative (Stats.Zero and the sampler test them with > 0); the search succeeded, so Flush is called as Server.StreamSearch does",
@@ -443,6 +1046,9 @@ func TestVerif_C25(t *testing.T) {
 	)
 	rec.Set("stats_fields_checked", c25Additive)
 	kit.Property(t, rec, c25GenCase, func(c c25Case) error {
+		if c.Flush != nil {
+			return c25FlushCase(rec, c)
+		}
 		facts, err := runC25(c)
 		var labels []string
 		add := func(b bool, l string) {
